@@ -70,6 +70,35 @@ def _opts(case):
 
 
 def run_case(case):
+    r = _run(case)
+    me = {'traj': case['traj'], 'opt': case['opt']}
+    if r['violations'] and _STATE.get('prev') is not None:
+        # configurations evaluated earlier in this worker (the first one and the one just before):
+        # needed to replay violations caused by state that survives a configuration reload (caches)
+        r['replay_case'] = dict(case, prev=_STATE['prev'], first=_STATE['first'])
+    _STATE.setdefault('first', me)
+    _STATE['prev'] = me
+    return r
+
+
+def replay(case):
+    """Re-create the worker's relevant history in a fresh process: the first configuration the
+    worker evaluated, the one evaluated just before, then the case. A violation that does not depend
+    on history shows up regardless; one caused by state surviving a configuration reload (caches
+    filled under another configuration) needs the predecessors - and a cold evaluation first would
+    fill those caches the other way round and mask it."""
+    for k in ('first', 'prev'):
+        if case.get(k):
+            _run(case[k])
+    r = _run(case)
+    if case.get('first') or case.get('prev'):
+        cold_note = 'after-earlier-configuration:'
+        for v in r['violations']:
+            v['detail'] = f'[replayed after configurations first={case.get("first")} prev={case.get("prev")}] ' + v['detail']
+    return r['violations']
+
+
+def _run(case):
     opts = _opts(case)
     traj, spec = _STATE['trajs'][case['traj']]
     pm, fuel = _STATE['pm'], _STATE['fuel']
